@@ -80,13 +80,13 @@ class C10(HistoryProperty):
         "case = program spec + history of (validate, keys, evaluate) triples on near-pair dictionaries; distinct = hash of (spec, "
         "dictionaries); non-trivial = histories containing both a triple that succeeds and a triple that fails"
     )
-    ASSUMPTIONS = ["hashable dispatch values, type-consistent dictionaries", "defaults lie inside their own declared domain"]
+    ASSUMPTIONS = ["hashable dispatch values", "defaults lie inside their own declared domain"]
     QUICK = {"runs": 8000, "wall": 40}
     THOROUGH = {"runs": 300000, "wall": 480}
     NONTRIVIAL_MEASURE = "history_mixed_outcomes"
 
     def gen_case(self, rng, tier):
-        cfg = gen.swarm_cfg(rng, off=("shape_change",), on=("dsclass",))
+        cfg = gen.swarm_cfg(rng, on=("dsclass",))
         cfg["effect_params"] = rng.random() < 0.4  # effects that are Evaluatables reading options of their own
         spec = gen.gen_spec(rng, cfg)
         # bare combinators are targets too: a memoising dataset around them computes keys() for its fingerprint
